@@ -312,8 +312,8 @@ def async_case(draw, driver=None):
                 else:
                     c["oc"] = ["silent"]
             cmds.append(c)
-        if serial_dt_needs_seq and kind in ("send", "txn") and any(c["k"] in DT16 for c in cmds):
-            kind = "seq"      # single sends of device-type commands on the serial drivers are judged by C15
+        if serial_dt_needs_seq and kind == "txn" and any(c["k"] in DT16 for c in cmds):
+            kind = "seq"      # hand-made transactions with device-type commands on the serial drivers: as a sequence
         if kind == "seq" and draw(st.booleans()):
             for _ in range(draw(st.integers(1, 2))):
                 item = {"k": "sleep", "d": draw(st.sampled_from([0.001, 0.02, 0.11]))} if draw(st.booleans()) else {"k": "progress"}
@@ -343,6 +343,11 @@ def async_case(draw, driver=None):
         # an answer nobody is waiting for any more (its query has long timed out) is reported while a command WITHOUT
         # answer is being exchanged and the next callers queue behind it: it belongs to none of them
         callers[0] = {"kind": "send", "cmds": [{"k": draw(st.sampled_from(["dapc", "off", "reset"])), "a": 1}], "t0": 0.0}
+        if draw(st.integers(0, 2)) == 0:
+            # ... or during the ENABLE DEVICE TYPE frame that precedes a device-type query of a sequence: that query
+            # still gets its own answer
+            callers[0] = {"kind": "seq", "cmds": [{"k": draw(st.sampled_from(["dtquery", "dtquery8"])), "a": 1,
+                                                   "oc": ["value", draw(st.integers(0, 255))]}], "t0": 0.0}
         for c in callers[1:]:
             c["t0"] = max(c["t0"], 0.0005)
         inj.append({"t": draw(st.sampled_from([0.002, 0.005, 0.009])), "kind": "stale-answer", "value": draw(st.integers(0, 255))})
